@@ -9,7 +9,10 @@
    every h in [base, height] the meta of h, all parts announced by the meta (each being that
    part of the block the meta names), the hash-index entry of the block's hash (pointing back to
    h) and the commit for h (the seen commit when h = height) are present and name the same block;
-   [audit d = (0,0)] is the executable form run by the correspondence check. *)
+   [audit d = (0,0)] is the executable form run by the correspondence check.
+   The composite prune of both stores (consensus/state.go pruneBlocks) is at the end of this
+   file: [xdb] = (block database, state database), [xstep] a write step of one of the two,
+   [Covered K d]: every height the block store retains resolves in the state store. *)
 From Coq Require Import List ZArith Bool Lia.
 From TM Require Import Generated.Consts C18.Model C18.Proofs.
 Import ListNotations.
@@ -194,4 +197,196 @@ Example C18_state_nonvacuous :
   load_vals_info (sreplay l ex_sdb) 10 = Some (7, Some 1) /\
   load_vals_info (sreplay l ex_sdb) 12 = Some (7, None) /\
   saudit 10 (del skey_eqb (sreplay l ex_sdb) (SKVals 10)) 12 14 = (12, 1).
+Proof. vm_compute. repeat split; reflexivity. Qed.
+
+(* ------------------------------------------------------------------ the composite prune
+
+   consensus/state.go pruneBlocks(retain) = PruneBlocks(retain) on blockstore.db, then
+   PruneStates(old base, retain) on state.db ([composite_prune], Model.v).  Its execution is the
+   concatenation of the write steps of the two halves ([XB s]: a step of the block store's
+   database, [XS s]: a step of the state store's); a crash keeps a prefix of that sequence, an
+   error return of either half (refused retain height, failed write) ends it after a prefix too.
+
+   Hypotheses: the block store is consistent and its memory state is the persisted one ([audit]
+   and [load_state], executable); the state database has the shape save() produces
+   ([StateShape], Proofs.v): for last-changed functions L (validators) and Lp (parameters) with
+   L h <= h, constant on [L h, h], the record of every height h of [retain, height + 1] is
+   (L h, set?) with a set only when L h = h or h is a checkpoint height (resp. (Lp h, params?)
+   with params only when Lp h = h), and the records PruneStates keeps for [retain] - at L retain,
+   at the last checkpoint max (retain - retain mod K) (L retain), at Lp retain - carry their
+   set / parameters when they lie in the pruned range. *)
+
+(* The range descriptor after every prefix of PruneBlocks' own write steps: base only moves up,
+   never beyond the retain height; the height does not change. *)
+Theorem C18_prune_blocks_prefix_range :
+  forall B m d r pruned m' l d',
+    audit d = (0, 0) -> m = load_state d -> prune_blocks B m d r = POk pruned m' l d' ->
+    m_base m <= r <= m_height m /\
+    load_state (breplay l d) = {| m_base := r; m_height := m_height m |} /\
+    forall n, m_base m <= m_base (load_state (breplay (firstn n l) d)) <= r /\
+              m_height (load_state (breplay (firstn n l) d)) = m_height m.
+Proof. exact prune_prefix_range_audit. Qed.
+Print Assumptions C18_prune_blocks_prefix_range.
+
+(* Every write step of PruneStates(from, to) - whatever it returns - deletes only records of
+   heights below [to] that are not in the keep set computed from the records of [to]: after
+   every prefix of its steps the record of every height >= to, the kept validator / parameter
+   records, the state and the last-ABCI-response records read as before. *)
+Theorem C18_prune_states_touches_only_unprotected :
+  forall K B d from to code l,
+    (forall x, In x (keepV_of K d to) -> from <= x < to -> exists l v, load_vals_info d x = Some (l, Some v)) ->
+    (forall x, In x (keepP_of d to) -> from <= x < to -> exists l p, load_params_info d x = Some (l, Some p)) ->
+    prune_states K B d from to = (code, l) ->
+    forall n k,
+      match k with
+      | SKVals x => to <= x \/ In x (keepV_of K d to)
+      | SKParams x => to <= x \/ In x (keepP_of d to)
+      | SKABCI x => to <= x
+      | SKState | SKLastABCI => True
+      end ->
+      sget (sreplay (firstn n l) d) k = sget d k.
+Proof. exact prune_states_protected. Qed.
+Print Assumptions C18_prune_states_touches_only_unprotected.
+
+(* The composite in the order of the code (blocks first, then states): after a crash at ANY
+   write step of either half, after an error return of either half, and after completion, the
+   block store's base has only moved up, its height is unchanged, and every height from the
+   (new) base to height + 1 resolves in the state store - validators, consensus parameters,
+   ABCI responses - exactly as before the call. *)
+Theorem C18_composite_prune_keeps_state_records :
+  forall K B L Lp m bd sd retain code m' steps,
+    0 < K -> audit bd = (0, 0) -> m = load_state bd ->
+    StateShape K L Lp sd (m_base m) retain (m_height m + 1) ->
+    composite_prune K B m bd sd retain = (code, m', steps) ->
+    forall n,
+      m_base m <= m_base (load_state (fst (xreplay (firstn n steps) (bd, sd)))) /\
+      m_height (load_state (fst (xreplay (firstn n steps) (bd, sd)))) = m_height m /\
+      forall h, m_base (load_state (fst (xreplay (firstn n steps) (bd, sd)))) <= h <= m_height m + 1 ->
+        load_validators K (snd (xreplay (firstn n steps) (bd, sd))) h = load_validators K sd h /\
+        load_consensus_params (snd (xreplay (firstn n steps) (bd, sd))) h = load_consensus_params sd h /\
+        load_abci (snd (xreplay (firstn n steps) (bd, sd))) h = load_abci sd h.
+Proof. exact composite_prune_prefix_audit. Qed.
+Print Assumptions C18_composite_prune_keeps_state_records.
+
+(* ... hence the invariant: if every block the block store retains had its state-store records
+   before pruneBlocks(retain) ([Covered]: LoadValidators for [base, height + 1],
+   LoadConsensusParams and LoadABCIResponses for [base, height] succeed), so it is after a
+   crash at any point of the composite, after an error from either half, and after completion. *)
+Theorem C18_composite_prune_crash_safe :
+  forall K B L Lp m bd sd retain code m' steps,
+    0 < K -> audit bd = (0, 0) -> m = load_state bd ->
+    StateShape K L Lp sd (m_base m) retain (m_height m + 1) ->
+    composite_prune K B m bd sd retain = (code, m', steps) ->
+    Covered K (bd, sd) ->
+    forall n, Covered K (xreplay (firstn n steps) (bd, sd)).
+Proof. exact composite_prune_covered_audit. Qed.
+Print Assumptions C18_composite_prune_crash_safe.
+
+(* ---- non-vacuity and the swapped order.  Checkpoint interval 4, batch size 2.  A chain of five
+   blocks from height 1: block 1 changes the consensus parameters (hash 8 -> 9 from height 2),
+   block 2 changes the validators (hash 1 -> 2 from height 4).  Each block: SaveBlock, then
+   SaveABCIResponses and Save(state) as ApplyBlock does. *)
+Definition xblk (h id vh ph : Z) (last : commit) : block :=
+  {| b_height := h; b_id := id; b_total := 1; b_vh := vh; b_ph := ph; b_last := last |}.
+Definition xst (last vals nvals lhvc params lhpc : Z) : sstate :=
+  {| s_last := last; s_initial := 1; s_vals := vals; s_next_vals := nvals; s_lhvc := lhvc;
+     s_params := params; s_lhpc := lhpc |}.
+Definition ex_chain : list (block * commit * sstate) :=
+  [ (xblk 1 11 1 8 (cm (-1) 0), cm 11 1, xst 1 1 1 1 9 2);
+    (xblk 2 12 1 9 (cm 11 2),   cm 12 3, xst 2 1 2 4 9 2);
+    (xblk 3 13 1 9 (cm 12 4),   cm 13 5, xst 3 2 2 4 9 2);
+    (xblk 4 14 2 9 (cm 13 6),   cm 14 7, xst 4 2 2 4 9 2);
+    (xblk 5 15 2 9 (cm 14 8),   cm 15 9, xst 5 2 2 4 9 2) ].
+Definition ex_xrun (s : mem * xdb) (x : block * commit * sstate) : mem * xdb :=
+  let '(b, seen, st) := x in
+  match save_block (fst s) b seen with
+  | Some (m', l) =>
+    (m', xreplay (map XB l ++ map XS (save_abci (b_height b) ++ fst (state_save 4 st))) (snd s))
+  | None => s
+  end.
+Definition ex_x0 : mem * xdb :=
+  ({| m_base := 0; m_height := 0 |}, ([], sreplay (fst (state_save 4 (xst 0 1 1 1 8 1))) [])).
+Definition ex_x5 : mem * xdb := Eval vm_compute in fold_left ex_xrun ex_chain ex_x0.
+
+Definition exL (h : Z) : Z := if h <? 1 then h else if h <? 4 then 1 else 4.
+Definition exLp (h : Z) : Z := if h <? 1 then h else if h <? 2 then 1 else 2.
+
+(* the hypotheses of the composite theorems hold of that state for pruneBlocks(5): consistent
+   block store [1, 5], state database of the required shape (the validators of heights 5 and 6
+   resolve through the record of height 4, the parameters through the record of height 2 - both
+   below the retain height), everything covered *)
+Example C18_composite_hypotheses_nonvacuous :
+  audit (fst (snd ex_x5)) = (0, 0) /\ fst ex_x5 = load_state (fst (snd ex_x5)) /\
+  fst ex_x5 = {| m_base := 1; m_height := 5 |} /\
+  StateShape 4 exL exLp (snd (snd ex_x5)) 1 5 6 /\
+  xaudit 4 (snd ex_x5) = (0, 0) /\
+  load_vals_info (snd (snd ex_x5)) 5 = Some (4, None) /\
+  load_params_info (snd (snd ex_x5)) 5 = Some (2, None).
+Proof.
+  split; [vm_compute; reflexivity|]. split; [vm_compute; reflexivity|]. split; [vm_compute; reflexivity|].
+  split; [|vm_compute; repeat split; reflexivity].
+  constructor.
+  - intros h. unfold exL. destruct (h <? 1) eqn:A; [lia|]. destruct (h <? 4) eqn:A'; lia.
+  - intros h x R. unfold exL in *. destruct (h <? 1) eqn:A.
+    + assert (x = h) by lia. subst. rewrite A. reflexivity.
+    + destruct (h <? 4) eqn:A'.
+      * replace (x <? 1) with false by lia. replace (x <? 4) with true by lia. reflexivity.
+      * replace (x <? 1) with false by lia. replace (x <? 4) with false by lia. reflexivity.
+  - intros h. unfold exLp. destruct (h <? 1) eqn:A; [lia|]. destruct (h <? 2) eqn:A'; lia.
+  - intros h x R. unfold exLp in *. destruct (h <? 1) eqn:A.
+    + assert (x = h) by lia. subst. rewrite A. reflexivity.
+    + destruct (h <? 2) eqn:A'.
+      * replace (x <? 1) with false by lia. replace (x <? 2) with true by lia. reflexivity.
+      * replace (x <? 1) with false by lia. replace (x <? 2) with false by lia. reflexivity.
+  - intros h R. assert (C : h = 5 \/ h = 6) by lia.
+    destruct C as [-> | ->]; exists None; (split; [vm_compute; reflexivity|intros N; contradiction]).
+  - intros h R. assert (C : h = 5 \/ h = 6) by lia.
+    destruct C as [-> | ->]; exists None; (split; [vm_compute; reflexivity|intros N; contradiction]).
+  - intros x R [-> | ->]; vm_compute; eauto.
+  - intros x R ->. vm_compute. eauto.
+Qed.
+
+Definition xaudit_ok (K : Z) (d : xdb) : bool := let '(h, r) := xaudit K d in (h =? 0) && (r =? 0).
+Definition audit_all_prefixes (K : Z) (steps : list xstep) (d : xdb) : bool :=
+  forallb (fun n => audit_ok (fst (xreplay (firstn n steps) d)) && xaudit_ok K (xreplay (firstn n steps) d))
+          (seq 0 (S (length steps))).
+
+(* pruneBlocks(5) in the order of the code: 6 write steps on the block store (two intermediate
+   flushes and the final one), then 3 batches on the state store; after every one of the ten
+   prefixes both audits pass; at the end only block 5 is left, the records of heights 1 and 3 are
+   gone, the kept records (validators 4, parameters 2) are still there. *)
+Example C18_composite_nonvacuous :
+  let '(code, m', steps) := composite_prune 4 2 (fst ex_x5) (fst (snd ex_x5)) (snd (snd ex_x5)) 5 in
+  code = 0 /\ m' = {| m_base := 5; m_height := 5 |} /\ length steps = 9%nat /\
+  audit_all_prefixes 4 steps (snd ex_x5) = true /\
+  load_vals_info (snd (xreplay steps (snd ex_x5))) 3 = None /\
+  load_abci (snd (xreplay steps (snd ex_x5))) 1 = false /\
+  load_vals_info (snd (xreplay steps (snd ex_x5))) 4 = Some (4, Some 2) /\
+  load_params_info (snd (xreplay steps (snd ex_x5))) 2 = Some (2, Some 9).
+Proof. vm_compute. repeat split; reflexivity. Qed.
+
+(* THE SWAPPED ORDER IS REFUTED: with PruneStates before PruneBlocks ([StatesFirst]) the same
+   call has the same steps in the other order and the same final state, but after its first
+   write step (the first state-store batch: heights 4 and 3) the block store still is [1, 5]
+   while LoadValidators(3) fails ... *)
+Example C18_swapped_order_refuted_by_crash :
+  let '(code, m', steps) := composite_prune_gen StatesFirst 4 2 (fst ex_x5) (fst (snd ex_x5)) (snd (snd ex_x5)) 5 in
+  code = 0 /\ length steps = 9%nat /\
+  load_state (fst (xreplay (firstn 1 steps) (snd ex_x5))) = {| m_base := 1; m_height := 5 |} /\
+  xaudit 4 (xreplay (firstn 1 steps) (snd ex_x5)) = (3, 1) /\
+  audit_all_prefixes 4 steps (snd ex_x5) = false /\
+  xaudit 4 (xreplay steps (snd ex_x5)) = (0, 0).
+Proof. vm_compute. repeat split; reflexivity. Qed.
+
+(* ... and an error from the second half is enough, no crash needed: pruneBlocks(6), one past
+   the tip.  The state store has the validators and parameters of height 6, so the swapped
+   order prunes the states of [1, 6) and then PruneBlocks refuses (code 2): all five blocks are
+   retained, none of them has its state records.  The order of the code returns the same error
+   without having written anything. *)
+Example C18_swapped_order_refuted_by_error :
+  (let '(code, m', steps) := composite_prune_gen StatesFirst 4 2 (fst ex_x5) (fst (snd ex_x5)) (snd (snd ex_x5)) 6 in
+   code = 2 /\ length steps = 3%nat /\
+   load_state (fst (xreplay steps (snd ex_x5))) = {| m_base := 1; m_height := 5 |} /\
+   xaudit 4 (xreplay steps (snd ex_x5)) = (1, 1)) /\
+  composite_prune 4 2 (fst ex_x5) (fst (snd ex_x5)) (snd (snd ex_x5)) 6 = (2, fst ex_x5, []).
 Proof. vm_compute. repeat split; reflexivity. Qed.
